@@ -25,12 +25,17 @@ static bool g_adaptive_tail = false;   // only C05's own runner knows the delsla
 void gen_history(Tape &t, Case &c, int maxlen, bool allow_copy, int solve_weight) {
   GenOpts go;
   go.maxm = 1 + (int)t.below(6); go.maxn = 1 + (int)t.below(6); go.bigness = 1;
+  if (t.chance(1, 4)) { go.minm = 4; go.maxm = 4 + (int)t.below(6); go.minn = 3; go.maxn = 3 + (int)t.below(6); }   // enough rows for the row-wise pricing paths
   GenLP g;
   static const int fam[] = {F_OPT, F_OPT, F_RAND, F_SHAPE, F_FACE, F_OPT, F_ILL, F_RAND, F_INF};
   if (t.chance(1, 12)) { g.m = Model(); g.m.objsense = t.coin() ? -1 : 1; g.family = "empty"; }
   else gen_lp_family(t, go, fam[t.below(9)], g);
   c.add_model(g.m);
-  c.ops.push_back(Op("route").I(t.below(R_NROUTES)));
+  int route = (int)t.below(R_NROUTES);
+  c.ops.push_back(Op("route").I(route));
+  // an object that comes from the file readers keeps its reader-made internals (row-major matrix copy, exactly
+  // sized arrays) only until the first structural edit: such histories mostly change values
+  bool value_edits = route == R_FILE && t.chance(3, 4);
   Model gm = g.m;
   EditGen eg;
   eg.maxm = 10; eg.maxn = 10; eg.bulk = 3; eg.maxrowlen = 5; eg.maxdel = 3; eg.bigness = 1;
@@ -63,7 +68,8 @@ void gen_history(Tape &t, Case &c, int maxlen, bool allow_copy, int solve_weight
       continue;
     }
     Op o;
-    if (!gen_edit(t, gm, eg, o)) continue;
+    static const int vk[] = {8, 9, 8, 10, 11, 13, 14, 9};
+    if (!gen_edit(t, gm, eg, o, value_edits && t.chance(4, 5) ? vk[t.below(8)] : -1)) continue;
     model_apply(gm, o, nullptr);
     c.ops.push_back(o);
     if (t.chance(1, 5)) c.ops.push_back(Op("probe"));
@@ -158,6 +164,7 @@ void c05_run(const Case &c, Result &r) {
   std::string why;
   mpq_QSprob p = sut_build(m, route, &why);
   if (!p) { r.fail("build:" + why, why); return; }
+  if (route == R_FILE) r.label(g_built_via_file ? "start:file-read-object" : "start:file-route-fell-back");
   bool solved_once = false, edited_since_solve = false, warm_resolve = false;
   bool last_solve_optimal = false;  // the last solve on this object ended OPTIMAL (edits since then do not reset it)
   bool last_optimal = false;        // the last solve ended OPTIMAL and nothing was edited since
